@@ -64,8 +64,41 @@ pub struct LogEv {
     pub bytes: Vec<u8>,
 }
 
+/// The interposer's events as they go into an observation.  A long allocation search produces two
+/// events per rejected candidate (mmap answered elsewhere, munmap of that block); beyond the first
+/// 100 such *pairs* (and the first 100 failed mmaps) a pair is left out as a whole, so that what
+/// remains is still a consistent history (every mapping that is kept or released later is there,
+/// and so is every mprotect and every flush).
 pub fn log_events(evs: &[ip::Ev]) -> Vec<LogEv> {
-    evs.iter().take(400).map(|e| LogEv { k: e.kind as u8, a0: e.a0, a1: e.a1, a2: e.a2, ret: e.ret, seq: e.seq, bytes: e.bytes.clone() }).collect()
+    let mut skip = vec![false; evs.len()];
+    if evs.len() > 400 {
+        let mut open: std::collections::HashMap<u64, usize> = Default::default();
+        let (mut pairs, mut failed) = (0usize, 0usize);
+        for (i, e) in evs.iter().enumerate() {
+            match e.kind {
+                ip::Kind::Mmap if e.ret == ip::MAP_FAILED as u64 => {
+                    failed += 1;
+                    if failed > 100 {
+                        skip[i] = true;
+                    }
+                }
+                ip::Kind::Mmap => {
+                    open.insert(e.ret, i);
+                }
+                ip::Kind::Munmap => {
+                    if let Some(j) = open.remove(&e.a0) {
+                        pairs += 1;
+                        if pairs > 100 && e.ret == 0 {
+                            skip[i] = true;
+                            skip[j] = true;
+                        }
+                    }
+                }
+                _ => {}
+            }
+        }
+    }
+    evs.iter().zip(&skip).filter(|(_, s)| !**s).take(20_000).map(|(e, _)| LogEv { k: e.kind as u8, a0: e.a0, a1: e.a1, a2: e.a2, ret: e.ret, seq: e.seq, bytes: e.bytes.clone() }).collect()
 }
 
 #[derive(Serialize, Deserialize, Clone, Debug, Default)]
